@@ -464,6 +464,37 @@ def main():
                 res.fail(f"mesh={et} units group-center", f"{et}: L shape scaled by {s}: groupElem.center {cen_g[0].tolist()}, exact {(c0 * s).tolist()}",
                          dict(ident, center=cen_g[0].tolist()))
 
+    # ---------- hand-built groups whose coordinate table is integer-typed (a natural way to write small meshes by hand) ----------
+    # measures, centres and first moments must not depend on the dtype of the coordinate table: embedded elements (a segment in the
+    # plane or in space, a triangle / quadrangle in space) are rebased in their own frame, which has irrational entries
+    from EasyFEA.FEM._group_elem import GroupElemFactory as _GEF
+    int_cases = [
+        ("SEG2", [[0, 1], [1, 2]], [[0, 0, 0], [3, 4, 0], [6, 0, 0]]),
+        ("SEG2", [[0, 1], [1, 2]], [[0, 0, 0], [1, 2, 2], [3, 4, 3]]),
+        ("SEG3", [[0, 2, 1]], [[0, 0, 0], [1, 1, 0], [2, 2, 0]]),
+        ("TRI3", [[0, 1, 2], [1, 3, 2]], [[0, 0, 0], [2, 0, 1], [0, 2, 2], [2, 2, 3]]),
+        ("QUAD4", [[0, 1, 3, 2]], [[0, 0, 0], [2, 0, 1], [0, 2, 2], [2, 2, 3]]),
+        ("TRI3", [[0, 1, 2]], [[0, 0, 0], [3, 0, 0], [0, 4, 0]]),
+        ("TETRA4", [[0, 1, 2, 3]], [[0, 0, 0], [3, 0, 0], [0, 4, 0], [1, 1, 5]]),
+    ]
+    for et, conn, tab in int_cases:
+        out = {}
+        identI = dict(elem=et, connect=conn, coordinates=tab, scenario="integer-typed coordinate table")
+        res.case((et, "int-coordinates", str(tab)))
+        try:
+            for dt in (float, int):
+                g = _GEF.Create(ElemType(et), np.array(conn), np.array(tab, dtype=dt))
+                d = g.dim
+                out[dt] = (np.asarray([g.length_e, g.area_e, g.volume_e][d - 1], float).copy(), np.asarray(g.center, float).copy(),
+                           float(g.Integrate_e(lambda x, y, z: x + 2 * y - z).sum()))
+        except Exception as e:  # noqa: BLE001
+            res.fail(f"elem={et} integer coordinates raise", f"{type(e).__name__}: {e}"[:200], identI)
+            continue
+        dev = max(np.abs(out[int][0] - out[float][0]).max(), np.abs(out[int][1] - out[float][1]).max(), abs(out[int][2] - out[float][2]))
+        if not (dev <= 1e-12):
+            res.fail(f"elem={et} measures depend on the dtype of the coordinates", f"{et} built from the integer table {tab}: element measures {out[int][0].tolist()} / centre {out[int][1].tolist()} / "
+                     f"integral of x + 2y - z {out[int][2]!r}; the same table as floats gives {out[float][0].tolist()} / {out[float][1].tolist()} / {out[float][2]!r}", identI)
+
     # ---------- rank adequacy on real assembled matrices ----------
     for et in M.ALL:
         d = M.dim_of(et)
